@@ -67,7 +67,8 @@ uintmax_t strtoumax(const char *restrict nptr, char **restrict endptr,
 	} else if (c == '+')
 		c = *s++;
 	if ((base == 0 || base == 16) &&
-	    c == '0' && (*s == 'x' || *s == 'X')) {
+	    c == '0' && (*s == 'x' || *s == 'X') &&
+	    isxdigit((unsigned char) s[1])) {
 		c = s[1];
 		s += 2;
 		base = 16;
